@@ -3,6 +3,8 @@ package db
 import (
 	"errors"
 	"fmt"
+	"os"
+	"path/filepath"
 	"strconv"
 	"strings"
 
@@ -27,7 +29,23 @@ var (
 	ErrVAANotFound = errors.New("requested VAA not found in store")
 )
 
+// removeEmptyLogFiles deletes zero-length memtable WAL (*.mem) and value log (*.vlog) files.
+// Badger creates such a file and sizes it in two steps; a process killed in between leaves
+// an empty file behind, on which the next badger.Open fails ("Create a new file"). An empty
+// file holds no data, and Badger creates the files it needs.
+func removeEmptyLogFiles(path string) {
+	for _, pattern := range []string{"*.mem", "*.vlog"} {
+		names, _ := filepath.Glob(filepath.Join(path, pattern))
+		for _, name := range names {
+			if fi, err := os.Stat(name); err == nil && fi.Size() == 0 {
+				_ = os.Remove(name)
+			}
+		}
+	}
+}
+
 func Open(path string) (*Database, error) {
+	removeEmptyLogFiles(path)
 	db, err := badger.Open(badger.DefaultOptions(path))
 	if err != nil {
 		return nil, fmt.Errorf("failed to open database: %w", err)
